@@ -96,7 +96,11 @@ def main() -> int:
             tier = args[1]; args = args[2:]
         else:
             args = args[1:]
-    muts = [m for m in load() if not args or any(a in m["id"] for a in args)]
+    allm = load()
+    muts = [m for m in allm if not args or any(a in m["id"] for a in args)]
+    notes = {m["id"]: m.get("note", "") for m in allm}
+    store = VERIF / "selftest" / "results.json"
+    results = json.loads(store.read_text()) if store.exists() else {}
     bad = 0
     with ThreadPoolExecutor(max_workers=jobs) as ex:
         for res in ex.map(lambda m: run_one(m, tier), muts):
@@ -106,6 +110,17 @@ def main() -> int:
                 bad += 1
             print(f"{status:7} {res['id']:40} caught={res['caught']} missed={res['missed']} "
                   f"tests_pass={res.get('tests_pass')} {res['errors']}", flush=True)
+            results[res["id"]] = {"status": status, "tier": tier, "caught": res["caught"], "missed": res["missed"],
+                                  "tests_pass": res.get("tests_pass"), "errors": [e[:200] for e in res["errors"]]}
+    store.write_text(json.dumps(results, indent=1, sort_keys=True))
+    lines = ["# Detection record (generated by selftest/mutate.py)", "",
+             "| change | existing tests pass | checks that raised VIOLATION | checks that stayed quiet | note |",
+             "|---|---|---|---|---|"]
+    for mid in sorted(results):
+        r = results[mid]
+        lines.append(f"| {mid} | {r['tests_pass']} | {', '.join(r['caught']) or '-'} | "
+                     f"{', '.join(r['missed']) or '-'} | {notes.get(mid, '')[:160]} |")
+    (VERIF / "selftest" / "RESULTS.md").write_text("\n".join(lines) + "\n")
     return 1 if bad else 0
 
 
